@@ -69,5 +69,9 @@ Next == /\ Len(hist) < MaxOps
 \* C36 (evaluated on states that follow a Reopen): the recovered state is exactly the commands up to the recorded applied position
 JustReopened == hist # <<>> /\ hist[Len(hist)].op = "reopen"
 Recovered == JustReopened => mem.state = 1..mem.applied
+\* transition coverage: with the history hidden by the VIEW, TLC visits every (disk, memory) state once and prints one history per
+\* transition leaving it
+CovNext == Next /\ PrintT(<<"CASE", ToJson([hist |-> hist'])>>)
+CovView == <<disk, mem, snapAt, crashed>>
 Case == (Len(hist) = MaxOps) => PrintT(<<"CASE", ToJson([hist |-> hist])>>)
 ====
